@@ -986,3 +986,21 @@ class Copy(Contract):
         cx.prove("same-item-objects", seq_eq(cx.ctx, items, s))
         cx.prove("predecessor-is-receiver", result.attrs.get("_predecessor") is cx.inputs["self"])
         cx.prove("frame:items-unchanged", cx.ctx.heap["D"] == cx.old["heap"]["D"])
+
+
+@register
+class SortRagged(Contract):
+    """sort on a list whose items may lack the sort key: the only allowed failure is KeyError, and in every
+    case no item is changed (sort is documented as non-modifying)."""
+    file, qualname, prop, variant = F, "ListOfDicts.sort", "C17", "ragged items: KeyError or sorted, never modified"
+
+    def setup(self, cx):
+        self_ = cx.lod("self")
+        return {"self": self_, "kwargs": {"k1": -1}}
+
+    def ensures(self, cx, result):
+        cx.prove("frame:items-unchanged", cx.ctx.heap["D"] == cx.old["heap"]["D"])
+
+    def raises(self, cx, exc):
+        cx.prove("only-KeyError", exc.exc == "KeyError")
+        cx.prove("frame:items-unchanged", cx.ctx.heap["D"] == cx.old["heap"]["D"])
